@@ -20,6 +20,7 @@ from ..core import where_of, trace_of
 from ..interp import fmt, contains, subterms
 from ..model import AnalysisError, ClassInfo
 from .. import q
+from .. import roles
 
 SELF = ("param", "self")
 
@@ -112,7 +113,7 @@ def check(ctx, rep):
     from .c02 import trans_rule
     from .c08 import snapshot_rule
     futc = prog.cls("_Future")
-    trans_rule(ctx, rep, [c for c in prog.subclasses(futc, strict=True)], futc.methods["_me_invoke_callbacks"], "_me_lock")
+    trans_rule(ctx, rep, [c for c in prog.subclasses(futc, strict=True)], roles.proto(ctx).dispatch, roles.proto(ctx).lock)
     snapshot_rule(ctx, rep)
 
 
